@@ -1474,10 +1474,10 @@ func (nd *KVNode) applyCommits(commitC <-chan applyInfo) {
 			if ent.raftDone == nil {
 				nodeLog.Panicf("wrong events : %v", ent)
 			}
-			verifPoint("apply.beforeApplyAll")
+			nd.rn.verifPoint("apply.beforeApplyAll")
 			confChanged, forceBackup := nd.applyAll(&np, &ent)
 
-			verifPoint("apply.afterApplyAll")
+			nd.rn.verifPoint("apply.afterApplyAll")
 			// wait for the raft routine to finish the disk writes before triggering a
 			// snapshot. or applied index might be greater than the last index in raft
 			// storage, since the raft routine might be slower than apply routine.
@@ -1492,7 +1492,7 @@ func (nd *KVNode) applyCommits(commitC <-chan applyInfo) {
 			if len(commitC) == 0 {
 				nd.rn.node.NotifyEventCh()
 			}
-			verifPoint("apply.beforeTriggerSnapshot")
+			nd.rn.verifPoint("apply.beforeTriggerSnapshot")
 			nd.maybeTriggerSnapshot(&np, confChanged, forceBackup)
 			nd.rn.handleSendSnapshot(&np)
 		}
